@@ -103,6 +103,12 @@ def _sha(text: str) -> str:
     return hashlib.sha256(text.encode()).hexdigest()
 
 
+def _is_pure_chain(e):
+    while isinstance(e, ast.Attribute):
+        e = e.value
+    return isinstance(e, ast.Name)
+
+
 class _Normalise(ast.NodeTransformer):
     """Source normalisation applied when a module is loaded, so that rules see one spelling of equivalent code:
     a single comparison with the constant on the left (`"x" == v`, `None is v`, `1 < n`) is turned round (`v == "x"`, `v is None`, `n > 1`).
@@ -210,6 +216,21 @@ class _Normalise(ast.NodeTransformer):
                         out.append(ast.copy_location(ast.Expr(value=ast.copy_location(ast.Yield(value=s.value), s)), s)); done = True
                     elif isinstance(nxt, ast.Raise) and isinstance(nxt.exc, ast.Name) and nxt.exc.id == nm and nxt.cause is None:
                         out.append(ast.copy_location(ast.Raise(exc=s.value, cause=None), s)); done = True
+                    if not done and _is_pure_chain(s.value) and not isinstance(nxt, (ast.FunctionDef, ast.AsyncFunctionDef, ast.ClassDef)):
+                        # a pure receiver / attribute chain bound for the next statement only: `r = a.b; r.c(x)` -> `a.b.c(x)`
+                        uses = [x for x in ast.walk(nxt) if isinstance(x, ast.Name) and x.id == nm and isinstance(x.ctx, ast.Load)]
+                        roots = {x.id for x in ast.walk(s.value) if isinstance(x, ast.Name)}
+                        rebinds = any(isinstance(x, ast.Name) and isinstance(x.ctx, ast.Store) and x.id in roots for x in ast.walk(nxt))
+                        if len(uses) == 1 and not rebinds:
+                            val = s.value
+
+                            class _Sub(ast.NodeTransformer):
+                                def visit_Name(self, node):
+                                    if node.id == nm and isinstance(node.ctx, ast.Load):
+                                        return ast.copy_location(val, node)
+                                    return node
+                            out.append(_Sub().visit(nxt))
+                            done = True
                     if done:
                         i += 2
                         continue
